@@ -28,8 +28,12 @@
 (* definition, property, items, allOf member, additionalProperties, body    *)
 (* schema and response schema.                                              *)
 (*                                                                          *)
+(* Array parameters, form parameters and response headers carry each        *)
+(* collectionFormat their location allows (SerParamAtoms and the cf. atoms   *)
+(* of FormAtoms / RespAtoms), nested arrays an inner one.                    *)
+(*                                                                          *)
 (* Outside the universe (the statement leaves them open or they are not     *)
-(* convertible): collectionFormat, schemes without host,                    *)
+(* convertible): schemes without host,                                      *)
 (* form parameters without form `consumes`, external references, examples.  *)
 (***************************************************************************)
 EXTENDS DocJson
@@ -81,6 +85,41 @@ RefTo(r) == O(KV("$ref", S(r)))
 PetRef == RefTo("#/definitions/Pet")
 Pet == O(KV("type", S("object")) @@ KV("required", A(<<S("id")>>))
          @@ KV("properties", O(KV("id", O(KV("type", S("integer")))) @@ KV("tag", O(KV("type", S("string")))))))
+
+(* --------------------------------------------------- array serialisation atoms *)
+(* OpenAPI 2 says how an array parameter is written on the wire with collectionFormat: csv (the default), ssv, tsv,    *)
+(* pipes - legal for every parameter location, for response headers and for the items of a nested array - and multi   *)
+(* (query and formData only).  Every format goes to every place that can carry it: an array parameter of a valid      *)
+(* OpenAPI 2 document, whatever its location and collectionFormat, must come out as a valid OpenAPI 3 parameter with  *)
+(* the same constraints; what the contract says about the serialisation itself is in Api23 (SerDiffs).                *)
+CFs == {"csv", "ssv", "tsv", "pipes", "multi"}
+CFsAt(in) == IF in \in {"query", "formData"} THEN CFs ELSE CFs \ {"multi"}
+ArrCF(cf, more) == KV("type", S("array")) @@ KV("items", O(KV("type", S("string")))) @@ KV("collectionFormat", S(cf)) @@ more
+(* an array of arrays: the inner array states its own format *)
+ArrArrCF(outer, inner) ==
+   KV("type", S("array")) @@ If(outer # "", KV("collectionFormat", S(outer)))
+   @@ KV("items", O(KV("type", S("array")) @@ KV("collectionFormat", S(inner)) @@ KV("items", O(KV("type", S("integer")) @@ KV("minimum", I(1))))))
+
+SerParamAtoms ==
+   UNION {{Atom("param", "q@op:cf." \o cf, "param:op:query:q", "op", "", Prm("query", "q", FALSE, ArrCF(cf, KV("minItems", I(1)))), Nul,
+                IF cf = "csv" THEN 1 ELSE IF cf = "pipes" THEN 2 ELSE 3),
+           Atom("param", "q@path:cf." \o cf, "param:path:query:q", "path", "", Prm("query", "q", FALSE, ArrCF(cf, <<>>)), Nul, 3),
+           Atom("param", "q@shared:cf." \o cf, "param:op:query:q", "shared", "P_q", Prm("query", "q", TRUE, ArrCF(cf, KV("uniqueItems", B(TRUE)))), Nul,
+                IF cf = "multi" THEN 2 ELSE 3)}
+          : cf \in CFsAt("query")}
+   \cup
+   UNION {{Atom("param", "h@op:cf." \o cf, "param:op:header:X-H", "op", "", Prm("header", "X-H", TRUE, ArrCF(cf, KV("maxItems", I(3)))), Nul,
+                IF cf = "pipes" THEN 1 ELSE IF cf = "ssv" THEN 2 ELSE 3),
+           Atom("param", "h@shared:cf." \o cf, "param:op:header:X-H", "shared", "P_h", Prm("header", "X-H", FALSE, ArrCF(cf, <<>>)), Nul, 3),
+           Atom("param", "id@op:cf." \o cf, "param:op:path:id", "op", "", Prm("path", "id", TRUE, ArrCF(cf, KV("minItems", I(1)))), Nul,
+                IF cf = "ssv" THEN 2 ELSE 3),
+           Atom("param", "id@path:cf." \o cf, "param:path:path:id", "path", "", Prm("path", "id", TRUE, ArrCF(cf, <<>>)), Nul, 3)}
+          : cf \in CFsAt("header")}
+   \cup
+   {Atom("param", "q@op:cf.items." \o x[1] \o "." \o x[2], "param:op:query:q", "op", "", Prm("query", "q", FALSE, ArrArrCF(x[1], x[2])), Nul, 3)
+      : x \in {<<"", "pipes">>, <<"multi", "csv">>, <<"csv", "ssv">>, <<"pipes", "tsv">>}}
+   \cup
+   {Atom("param", "h@op:cf.items.pipes", "param:op:header:X-H", "op", "", Prm("header", "X-H", FALSE, ArrArrCF("", "pipes")), Nul, 3)}
 
 (* ------------------------------------------------------------ parameter atoms *)
 IsCoreId(id, ids) == id \in ids
@@ -137,6 +176,7 @@ ParamAtoms ==
     Atom("param", "body+requestBody@query", "param:op2:query:body", "op2", "", Prm("query", "body", FALSE, KV("type", S("string"))),
          Prm("query", "requestBody", FALSE, KV("type", S("string"))), 1),
     Atom("param", "z@op2:query", "param:op2:query:zz", "op2", "", Prm("query", "zz", TRUE, KV("type", S("integer")) @@ KV("minimum", I(1))), Nul, 2)}
+   \cup SerParamAtoms
 
 (* ----------------------------------------------------------------- form atoms *)
 Ext == KV("x-internal-id", S("u1"))
@@ -164,6 +204,11 @@ FormAtoms ==
          Atom("form", "file@shared+ext:required", "form:file", "shared", "UploadBlob", Prm("formData", "file", TRUE, KV("type", S("file")) @@ Ext), Nul, 1),
          Atom("form", "f1@op+ext:required", "form:f1", "op", "", Prm("formData", "f1", TRUE, KV("type", S("string")) @@ Ext), Nul, 2),
          Atom("form", "file@op+ext", "form:file", "op", "", Prm("formData", "file", FALSE, KV("type", S("file")) @@ Ext), Nul, 2)}
+   \cup \* array form parameters in each collectionFormat (inline and shared)
+   UNION {{Atom("form", "f1@op:cf." \o cf, "form:f1", "op", "", Prm("formData", "f1", FALSE, ArrCF(cf, KV("minItems", I(1)))), Nul,
+                IF cf = "multi" THEN 2 ELSE 3),
+           Atom("form", "f1@shared:cf." \o cf, "form:f1", "shared", "F_f1", Prm("formData", "f1", TRUE, ArrCF(cf, <<>>)), Nul, 3)}
+          : cf \in CFsAt("formData")}
 
 (* ------------------------------------------------------------------- schemas *)
 Sc(id, s, c) == [id |-> id, s |-> s, c |-> c]
@@ -187,6 +232,21 @@ ObjSchemas ==
     Sc("discriminator", O(TObj @@ KV("discriminator", S("kind")) @@ KV("required", A(<<S("kind")>>))
                            @@ KV("properties", O(KV("kind", StrSchema)))), 1),
     Sc("allOf", O(KV("allOf", A(<<PetRef, O(TObj @@ KV("properties", O(KV("b", O(KV("type", S("integer")))))))>>))), 1),
+    \* `required` is a constraint of its own: the names it lists need not be keys of the schema's own `properties`.
+    \* The composition idiom (a member of allOf requires a property that the referenced parent declares), a name only
+    \* additionalProperties admits, a name nobody declares, `required` without any `properties`, `required` next to allOf.
+    Sc("allOfRequiresParentProp", O(KV("allOf", A(<<PetRef, O(TObj @@ KV("required", A(<<S("tag"), S("b")>>))
+                                                              @@ KV("properties", O(KV("b", O(KV("type", S("integer")))))))>>))), 1),
+    Sc("requiredUndeclared", O(TObj @@ PropA(StrSchema) @@ KV("required", A(<<S("a"), S("z")>>))), 2),
+    Sc("requiredOnlyUndeclared", O(TObj @@ PropA(StrSchema) @@ KV("required", A(<<S("z")>>))), 3),
+    Sc("requiredNoProperties", O(TObj @@ KV("required", A(<<S("z")>>))), 2),
+    Sc("requiredByAp", O(TObj @@ PropA(StrSchema) @@ KV("additionalProperties", O(KV("type", S("integer"))))
+                          @@ KV("required", A(<<S("k")>>))), 3),
+    Sc("requiredNextToAllOf", O(KV("allOf", A(<<PetRef>>)) @@ KV("required", A(<<S("tag")>>))), 3),
+    Sc("requiredOneOfTwo", O(TObj @@ KV("properties", O(KV("a", StrSchema) @@ KV("b", O(KV("type", S("integer"))))))
+                              @@ KV("required", A(<<S("b")>>))), 3),
+    Sc("nestedRequiresUndeclared", O(TObj @@ PropA(O(TObj @@ KV("required", A(<<S("b"), S("z")>>))
+                                   @@ KV("properties", O(KV("b", O(KV("type", S("string"))))))))), 3),
     Sc("nullableObj", O(TObj @@ KV("x-nullable", B(TRUE))), 2),
     Sc("nullableStr", O(KV("type", S("string")) @@ KV("x-nullable", B(TRUE))), 1),
     \* nullable AND enumerated: the enum is the enum (null is admitted by the flag, not by a new member)
@@ -247,6 +307,13 @@ RespAtoms ==
    {Atom("resp", "200.header:" \o p.id, "resp:200", "op", "200",
          O(KV("description", S("fine")) @@ KV("headers", O(KV("X-Rate", Hdr(p.f))))), Nul,
          IF p.id = "integer.minimum" THEN 1 ELSE IF p.nk <= 1 THEN 2 ELSE 3) : p \in PL(FieldK)}
+   \cup \* array response headers in each collectionFormat (inline response, shared response)
+   UNION {{Atom("resp", "200.header:cf." \o cf, "resp:200", "op", "200",
+                O(KV("description", S("fine")) @@ KV("headers", O(KV("X-Rate", Hdr(ArrCF(cf, KV("maxItems", I(3)))))))), Nul,
+                IF cf = "pipes" THEN 2 ELSE 3),
+           Atom("resp", "default:shared.header:cf." \o cf, "resp:default", "shared", "default",
+                O(KV("description", S("problem")) @@ KV("headers", O(KV("X-Why", Hdr(ArrCF(cf, <<>>)))))), Nul, 3)}
+          : cf \in CFsAt("header")}
    \cup
    {Atom("resp", "404:ref", "resp:404", "op", "404", RespObj("not found", PetRef), Nul, 1),
     Atom("resp", "200:xnull.prop", "resp:200", "op", "200", RespObj("fine",
